@@ -152,20 +152,36 @@ def r2_check_before_write(rep, ctx):
         rep.check(ok, "C17.R2", "AddUnitSystem:id-unique", "the system is registered only under an id that is not yet in the registry",
                   "the registration is not dominated by an 'id not in registry' test on the same id: a second system silently replaces the first", node=st, fn=fn)
         # template coverage: when a template exists and a mapping was given, the coverage test dominates
-        covered = False
-        for c in _calls(fn, "_CheckUnitSystemMapping"):
-            cn = cfg.node_of(c)
-            # the store is reachable from the check only through a test on its result whose failing edge must-raise
-            for nid in cfg.nodes("test"):
-                e = cfg.ast[nid]
-                t = res.term(e)
-                if any(s[0] == "call" and s[1] == ("field", "_CheckUnitSystemMapping") for s in walk(t)):
-                    # which label means "no match"?  `not match` is split by the CFG: leaf is `match`
-                    if cfg.must_raise_from([(nid, "F")]):
-                        args = c.args
-                        roles = len(args) == 2 and all(a[0] == "param" and a[2] == "units_mapping" for a in alternatives(res.term(args[0]))) \
-                            and any(s[0] == "call" and s[1][0] == "attr" and s[1][2] == "GetUnitsMapping" for s in walk(res.term(args[1])))
-                        covered = roles
+        def coverage_in(f2, mapping_param):
+            """In f2: a test on _CheckUnitSystemMapping(<mapping_param>, <template categories>) whose 'no match' edge must-raise."""
+            c2 = CFG(f2.node)
+            r2 = Resolver(m, f2, inline=False)
+            for c in _calls(f2, "_CheckUnitSystemMapping"):
+                for nid in c2.nodes("test"):
+                    t = r2.term(c2.ast[nid])
+                    if any(s2[0] == "call" and s2[1] == ("field", "_CheckUnitSystemMapping") for s2 in walk(t)):
+                        # `not match` is split by the CFG: the leaf is `match`, its F edge means "no match"
+                        if c2.must_raise_from([(nid, "F")]):
+                            args = c.args
+                            if len(args) == 2 and all(a[0] == "param" and a[2] == mapping_param for a in alternatives(r2.term(args[0]))) \
+                                    and any(s2[0] == "call" and s2[1][0] == "attr" and s2[1][2] == "GetUnitsMapping" for s2 in walk(r2.term(args[1]))):
+                                return True
+            return False
+
+        covered = coverage_in(fn, "units_mapping")
+        if not covered:
+            # the check may live in a helper introduced later, called (with the mapping) before the registration
+            from ..anchors import KNOWN_FUNCTIONS
+            for c in own_nodes(fn.node):
+                if isinstance(c, ast.Call) and isinstance(c.func, ast.Attribute) and c.func.attr not in KNOWN_FUNCTIONS and isinstance(c.func.value, ast.Name) and c.func.value.id == fn.params[0]:
+                    g = m.lookup(M, c.func.attr)
+                    if g is None:
+                        continue
+                    pos = [i for i, a in enumerate(c.args) if isinstance(a, ast.Name) and a.id == "units_mapping"]
+                    if pos and cfg.dominated_by_node(cfg.node_of(st), lambda k, a, c=c: a is cfg.ast[cfg.node_of(c)]):
+                        gp = [p_ for p_ in g.params if p_ not in ("self", "cls")]
+                        if pos[0] < len(gp) and coverage_in(g, gp[pos[0]]):
+                            covered = True
         rep.check(covered, "C17.R2", "AddUnitSystem:template-coverage", "a given mapping is checked against the template's categories and a mismatch must-raise before registration",
                   "AddUnitSystem does not reject (before registering) a mapping that misses template categories, or checks the wrong operands", node=st, fn=fn)
     # SetTemplate...: the new template is stored only after *every* registered system was checked against it
@@ -229,10 +245,14 @@ def r2_check_before_write(rep, ctx):
               "_CheckUnitSystemMapping does not test mapping-categories ⊇ required-categories", fn=chk)
 
 
+CURRENT_TERMS = [("field", "_current")]
+
+
 def _is_current_test(e, res):
-    """leaf `self._current is not None` -> 'notnone-T'; `is None` -> 'none-T'; else None."""
+    """leaf `<current system> is not None` -> 'T' (the T edge means: there is one); `is None` -> 'F'.
+    The current system is self._current or, inside SetCurrent, the value being stored into it."""
     if isinstance(e, ast.Compare) and len(e.ops) == 1 and isinstance(e.comparators[0], ast.Constant) and e.comparators[0].value is None:
-        if res.term(e.left) == ("field", "_current"):
+        if res.term(e.left) in CURRENT_TERMS:
             return "T" if isinstance(e.ops[0], ast.IsNot) else "F" if isinstance(e.ops[0], ast.Is) else None
     return None
 
@@ -246,6 +266,10 @@ def r3_pairing(rep, ctx):
     if len(stores) != 1:
         raise AnalysisError("SetCurrent: expected exactly one store of _current, found %d" % len(stores))
     S = cfg.node_of(stores[0])
+    stored_t = res.term(stores[0].value)
+    del CURRENT_TERMS[1:]
+    if stored_t[0] == "param":
+        CURRENT_TERMS.append(stored_t)
     unreg = [c for c in _calls(fn, "Unregister")]
     reg = [c for c in _calls(fn, "Register")]
     # tests on _current: label of the edge meaning "there is a current system"
@@ -263,7 +287,11 @@ def r3_pairing(rep, ctx):
     # --- Unregister(old) before the store on every path where an old system exists
     un_nodes = {cfg.node_of(c) for c in unreg if cfg.node_of(c) not in cfg.reach(S) or True}
     pre_un = {n for n in un_nodes if S in cfg.reach(n)}
-    reach = cfg.reach(cfg.ENTRY, avoid=pre_un, avoid_edges={e for e in none_edges if S in cfg.reach(e[0]) and e[0] not in cfg.reach(S)})
+    def on_old(e):
+        # a test on the *old* current system: the field itself, evaluated before the store
+        leaf = cfg.ast[e[0]]
+        return isinstance(leaf, ast.Compare) and res.term(leaf.left) == ("field", "_current")
+    reach = cfg.reach(cfg.ENTRY, avoid=pre_un, avoid_edges={e for e in none_edges if S in cfg.reach(e[0]) and e[0] not in cfg.reach(S) and on_old(e)})
     ok_un = bool(pre_un) and S not in reach
     rep.check(ok_un, "C17.R3", "SetCurrent:unregister-old",
               "every path to the store of _current either unregisters the old system's listener or had no old system",
@@ -282,7 +310,8 @@ def r3_pairing(rep, ctx):
     def cb(c):
         return ast.unparse(c.args[0]) if c.args else None
     same = bool(unreg) and bool(reg) and {cb(c) for c in unreg} == {cb(c) for c in reg} and len({cb(c) for c in reg}) == 1
-    recv = all(res.term(c.func.value) == ("attr", ("field", "_current"), "on_default_unit") for c in unreg + reg)
+    recv = all(res.term(c.func.value)[0] == "attr" and res.term(c.func.value)[2] == "on_default_unit" and res.term(c.func.value)[1] in CURRENT_TERMS for c in unreg + reg) \
+        and all(res.term(c.func.value)[1] == ("field", "_current") for c in unreg)
     rep.check(same and recv, "C17.R3", "SetCurrent:same-callback", "Unregister and Register use the same callback on the current system's on_default_unit",
               "Unregister/Register do not pair: callbacks %s vs %s" % (sorted({cb(c) for c in unreg}), sorted({cb(c) for c in reg})), fn=fn)
     # --- on_current fires on every path after the store
@@ -295,7 +324,7 @@ def r3_pairing(rep, ctx):
             t = res.term(c.args[0]) if c.args else ("const", None)
             facts = cfg.facts_at(cfg.node_of(c))
             in_none_arm = any((_is_current_test(e, res) == "T" and not v) or (_is_current_test(e, res) == "F" and v) for e, v in facts)
-            okarg = (t == ("field", "_current") and not in_none_arm) or (in_none_arm and t[0] == "field" and "null" in t[1])
+            okarg = (t in CURRENT_TERMS and not in_none_arm) or (in_none_arm and t[0] == "field" and "null" in t[1])
             rep.check(okarg, "C17.R3", "SetCurrent:on_current-arg:%s" % norm(ast.unparse(c)), "listeners receive the new current system (the null system when None)",
                       "on_current is called with %s" % show(t), node=c, fn=fn)
 
@@ -438,12 +467,9 @@ def r7_convert(rep, ctx):
         v, u = t[1]
         if v == ("param", P["value"], "value"):
             # unchanged arm: must return the given unit and be guarded by 'no default'
-            guarded = False
-            p = getattr(r, "_parent", None)
-            while p is not None and p is not fn.node:
-                if isinstance(p, ast.If) and any(s[0] == "call" and s[1][0] == "attr" and s[1][2] == "GetDefaultUnit" for s in walk(res.term(p.test))):
-                    guarded = True
-                p = getattr(p, "_parent", None)
+            # every path to the unchanged return passed a test about the current system / its default unit
+            tests_ = {nid for nid in cfg.nodes("test") if any((s[0] == "call" and s[1][0] == "attr" and s[1][2] in ("GetDefaultUnit",)) or s in (("field", "current"), ("call", ("field", "GetCurrent"), (), ()), ("field", "_current")) for s in walk(res.term(cfg.ast[nid])))}
+            guarded = bool(tests_) and cfg.node_of(r) not in cfg.reach(cfg.ENTRY, avoid=tests_)
             rep.check(u == ("param", P["unit"], "unit") and guarded, "C17.R7", key, "without a current default unit the inputs are returned unchanged",
                       "ConvertToCurrent returns the unconverted value with %s" % ("another unit" if u != ("param", P["unit"], "unit") else "no test that there is no default unit"), node=r, fn=fn)
             continue
